@@ -91,6 +91,22 @@ void h_dispatch(void)
       VC_CHECK("stored average is the column average", avg->data[j] == T_AVG);
       VC_CHECK("stored scaling is the statistic promised by the option (sd / rms / sqrt(sd) / max-min / mean / 1)", sc->data[j] == expect);
     }
+    /* the tags are powers of two: (cell - average) / scaling is then one rounding (the subtraction) however it is evaluated */
+    for(size_t i = 0; i < VC_R; i++)
+      for(size_t j = 0; j < VC_C; j++)
+        VC_CHECK("fit: transformed cell == (cell - stored average) / stored scaling", VC_SAME(t->data[i][j], (x[i][j] - T_AVG) / expect));
+    /* apply: the stored vectors transform new data, nothing is re-estimated */
+    double x2[GMAX][GMAX];
+    matrix *o2 = in_matrix(VC_R, VC_C, x2), *t2;
+    NewMatrix(&t2, VC_R, VC_C);
+    MatrixPreprocess(o2, VC_TYPE, avg, sc, t2);
+    VC_CHECK("apply: no statistic routine is consulted again", n_avg == 1 && n_sdev + n_rms <= 1 && n_minmax <= (size_t)VC_C && n_sqrt <= (size_t)VC_C);
+    VC_CHECK("apply: stored vectors keep one entry per column", avg->size == VC_C && sc->size == VC_C);
+    for(size_t j = 0; j < VC_C; j++) {
+      VC_CHECK("apply: stored average and scaling are unchanged", avg->data[j] == T_AVG && sc->data[j] == expect);
+      for(size_t i = 0; i < VC_R; i++)
+        VC_CHECK("apply: transformed cell == (new cell - stored average) / stored scaling", VC_SAME(t2->data[i][j], (x2[i][j] - T_AVG) / expect));
+    }
   }
   VC_REACH();
 }
